@@ -2,21 +2,26 @@
 """Generates /verif/kani/src/c10_gen.rs: the C10 harness table (instruments and generic bodies live in c10.rs).
 
 Layer 1 — drivers with an arbitrary callback, output container `Logged<u8, N>`:
-  c10_drv_<be>_<Ns>        all six drivers, returned + caller-buffer path, window 1..=N+3          (expected to hold)
-  c10_w0_empty_vec_nd      window 0 on an empty series, fast paths                              (expected to hold)
-  c10_w0_ret_<be>_n<N>     window 0, returned path of the five fast-path overrides (Vec, Array1) (DEFECT expected)
-  c10_w0_out_<be>_n<N>     window 0, caller-buffer path (`*_to` bodies)                          (DEFECT expected)
-  c10_short2_*             second series one element shorter                                     (DEFECT expected)
-  c10_panic_w0_*           window 0 where the tree panics cleanly: #[kani::should_panic], plain Vec output
-Layer 2 — self-indexing kernels, inputs Vec (pointer checks) and DefView (checked uget), output `Logged<f64, N>`:
-  c10_cmp_<view>_<Ns>      ts_vmin/vmax/vargmin/vargmax/ts_vrank, window 1..=N+3, min_periods None | 0..=N+3
-  c10_num_<view>_<Ns>      ts_vminmaxnorm, ts_vregx_resid_mean/std/skew (safety only)
-  c10_map_<view>_<Ns>      vrank, vpartition, varg_partition (k 0..=N+1), vquantile
-  c10_empty_<view>         the rolling kernels on an empty series (window from 0 on Vec)
-  c10_w0_kernels_vec_n2    window 0 through the kernels on Vec                                   (DEFECT expected)
-  c10_vrank_empty, c10_panic_*  clean panics (should_panic)
-be: vec, nd (Array1), dv (util::DefView: default driver bodies). view: vec, dv.
-Quick: N <= 3; thorough adds N = 4 and the w0 / short2 harnesses at further lengths.
+  c10_drv_<be>_<ret|out>_<Ns>   the six drivers (Array1: the four non-slice drivers; slice forms `c10_drvc_nd_*` thorough),
+                                returned path / caller-buffer path, window 1..=N+3                  (expected to hold)
+  c10_w0_empty_vec_nd           window 0 on an empty series, fast paths                             (expected to hold)
+  c10_w0_drivers_<be>_n<N>      window 0, non-empty series: the five fast-path overrides (returned) and, for Vec, the
+                                five `*_to` bodies (caller buffer) — symbolic choice, own messages   (DEFECT expected)
+  c10_w0_out_<be>_n<N>          window 0, caller-buffer path on Array1 / DefView (thorough)          (DEFECT expected)
+  c10_short2_n<N>               second series one element shorter (apply2 / idx2 / custom2)          (DEFECT expected)
+  c10_panic_w0_<drv>_<be>       window 0 where the tree panics cleanly: #[kani::should_panic], plain Vec output
+Layer 2 — self-indexing kernels, output `Logged<f64, N>`; views: arr = [T; N] (the `impl_vec1!` fast path of Vec without
+a heap object: 3x cheaper), vec = Vec<T> (thorough), dv = util::DefView (default bodies, checked uget):
+  c10_cmp_<kernel>_<view>_<Ns>  ts_vmin / vmax / vargmin / vargmax / ts_vrank, window 1..=N+3, min_periods None | 0..=N+3
+  c10_minmaxnorm_<view>_<Ns>    ts_vminmaxnorm
+  c10_resid_<kind>_<view>_<Ns>  ts_vregx_resid_mean (quick) / std / skew (thorough, DefView only) — safety only
+  c10_vrank_<view>_<Ns>, c10_quantile_<view>_<Ns>, c10_argpartition_<view>_<tag>_n<N>, c10_vpartition_<view>_<tag>_n<N>
+  c10_empty_<view>              the rolling kernels on an empty series (window from 0 on the fast path)
+  c10_vrank_empty               ts_vrank on an empty Vec (underflowed in the pinned tree; C05)
+  c10_w0_kernels_vec_n2         window 0 through the kernels on Vec                                  (DEFECT expected)
+  c10_panic_cmp_empty_dv        cmp kernel on an empty DefView: assert!(window > 0) — clean panic (should_panic)
+Windows: symbolic for DefView and for the drivers; enumerated by a concrete loop for kernels on fast-path inputs (see wloop).
+Quick: N <= 3; thorough adds N = 4, Vec inputs for the kernels and further lengths of the defect harnesses.
 """
 import os
 OUT = os.path.join(os.path.dirname(os.path.abspath(__file__)), "..", "kani", "src", "c10_gen.rs")
